@@ -62,10 +62,14 @@ def check(V, prop, tier, seed):
     oracle_failures = []     # (signature, message, case)
     log = []
 
+    T = {}
+    def lap(name, _t=[t0]):
+        now = time.time(); T[name] = round(now - _t[0], 2); _t[0] = now
     # (a) audit
     aud = V.audit_sources()
     for p in aud: proof_problems.append('forbidden construct: ' + p)
 
+    lap('audit')
     # (b) theorems
     thm_pairs = V.theorems_of(prop)
     thms = [t for _, t in thm_pairs]
@@ -98,6 +102,7 @@ def check(V, prop, tier, seed):
                     discharged += 1
                 trusted.update(axs)
 
+    lap('make+assumptions')
     # (c) harness + correspondence
     streams = cfg.streams(tier)
     results = []
@@ -119,6 +124,7 @@ def check(V, prop, tier, seed):
         for i in r['bad']:
             corr_problems.append(dict(stream=st.name, release=st.release, f32=st.f32, index=i, case=r['cases'][i], coq=r['coq'][i]))
 
+    lap('harness+coqc')
     # (d) oracles on the implementation's outputs
     n_eval = 0; nontrivial = set(); samples = []; dist = {}
     for r in results:
@@ -135,6 +141,7 @@ def check(V, prop, tier, seed):
     if not samples and results and results[0]['cases']:
         samples.append(cfg.describe(results[0]['cases'][0], results[0]['stream']))
 
+    lap('oracles')
     # (e) after a break: widen the search for a failing input
     broken = bool(proof_problems or corr_problems)
     searched = 0
@@ -206,7 +213,7 @@ def check(V, prop, tier, seed):
             path_tag_histogram=hist_all, input_distribution=dist,
             streams=[dict(name=r['stream'].name, n=len(r['cases']), release=r['stream'].release, f32=r['stream'].f32, mismatches=len(r['bad'])) for r in results],
             oracle_failures=len(oracle_failures), known_findings_matched=known_lines, search_inputs_after_break=searched,
-            broken_obligations=[str(p)[:300] for p in proof_problems],
+            broken_obligations=[str(p)[:300] for p in proof_problems], phase_seconds=T,
         ),
         assumptions=cfg.ASSUMPTIONS,
         wall_s=round(time.time() - t0, 2), violations=len(new_failures) + (1 if (broken and not new_failures) else 0))
